@@ -72,7 +72,17 @@ def run_driver(mod, cases, tag, shards=None, timeout=3000, extra_env=None):
             so, se = p.communicate()
             errs.append("driver shard %d timed out" % i)
             continue
-        if p.returncode != 0 or not os.path.exists(cout):
+        if p.returncode is not None and p.returncode < 0:
+            # killed by a signal (on a loaded machine: the kernel's OOM killer) - nothing to do with the cases: once more, alone
+            cin = os.path.join(work, "in_%d.json" % i)
+            time.sleep(3)
+            r2 = subprocess.run([PY, os.path.join(HERE, "impl", mod.DRIVER), mod.ID, cin, cout], env=env, cwd="/",
+                                capture_output=True, text=True, timeout=timeout)
+            if r2.returncode != 0 or not os.path.exists(cout):
+                errs.append("driver shard %d rc=%s (after a retry: rc=%s): %s" % (i, p.returncode, r2.returncode,
+                                                                                 (r2.stdout + r2.stderr)[-3000:]))
+                continue
+        elif p.returncode != 0 or not os.path.exists(cout):
             errs.append("driver shard %d rc=%s: %s" % (i, p.returncode, (so + se)[-3000:]))
             continue
         res = json.load(open(cout))
